@@ -177,16 +177,21 @@ theorem steps_bounded (s s' : Sys) (t : Nat) (h : step s t = some s') : measure 
 
 /-- In a reachable state where nothing can move: every thread is finished (the keep-alive loop:
 finished, or asleep with no interval left to elapse and nobody having stopped it), each call made got
-the reply to the datagram that same thread sent, and every application thread other than the closing
-one made all its calls. -/
+the reply to the datagram that same thread sent, every application thread other than the closing
+one made all its calls, and — if a thread closes the session — Close Session is on the wire (by
+`nothing_after_close_session`: as the last datagram), the session is deactivated and every thread,
+the keep-alive thread included, has terminated. -/
 theorem maximal_runs_complete (c : Cfg) (hc : c.Safe) (hs : c.sessSeq ≤ 0xffffffff) (sched : List Nat)
     (hterm : ∀ t, step (run (init c) sched) t = none) :
     (∀ (t : Nat) (th : Thr), (run (init c) sched).thr[t]? = some th → parked (run (init c) sched) th ∧
       ∀ r ∈ th.results, ∃ n, r = .ok n n ∧ sentBy (run (init c) sched).wireChron t n = true) ∧
     (∀ (t : Nat) (p : Nat × Nat), c.threads[t]? = some p → c.closer ≠ some t →
-      ∃ th, (run (init c) sched).thr[t]? = some th ∧ th.pc = .done ∧ th.results.length = p.1) :=
-  have h := run_all (init_inv c hs) (init_tear c hc) (init_acc c) sched
-  terminal_complete h.1 h.2.1 h.2.2 hterm
+      ∃ th, (run (init c) sched).thr[t]? = some th ∧ th.pc = .done ∧ th.results.length = p.1) ∧
+    (∀ (t : Nat) (p : Nat × Nat), c.threads[t]? = some p → c.closer = some t →
+      (run (init c) sched).activated = false ∧ (monitor (run (init c) sched).wireChron).closed = true ∧
+      ∀ (t' : Nat) (th' : Thr), (run (init c) sched).thr[t']? = some th' → th'.pc = .done) :=
+  have h := run_all (init_inv c hs) (init_tear c hc) (init_close c) (init_acc c) sched
+  terminal_complete h.1 h.2.1 h.2.2.1 h.2.2.2 hterm
 
 theorem accepted_trace_ok (c : Cfg) (hc : c.Safe) (hs : c.sessSeq ≤ 0xffffffff) (tr : List (Nat × Act))
     (s : Sys) (h : replay (init c) tr = .ok s) : accepts s.wireChron s.results = true := by
